@@ -968,6 +968,152 @@ def search_history(ctx, fd, rebound):
                     "sim.add(%r) adds the AU / yr/2pi / Msun numbers unconverted into a simulation whose units are already set" % nm)
 
 
+def search_edges(ctx, fd, rebound):
+    """the corners of what C20 quantifies over: angles 0 / pi / 2pi, zero and non-unit quaternions, parallel axes, inc = 0 / pi, the ends of the
+    double range, N = 0 / 1, test-particle variational sets, and the same objects used again after an error path"""
+    rng = ctx.rng
+    R, V = rebound.Rotation, rebound.Vec3d
+    ql = lambda q: [q.ix, q.iy, q.iz, q.r]
+    app = lambda q, v: (lambda w: [w.x, w.y, w.z])(q * v)
+    vd = lambda a, b: max(abs(x - y) for x, y in zip(a, b))
+    fin = lambda xs: all(math.isfinite(x) for x in xs)
+
+    def guard(key, rep, fn):
+        ctx.evaluations += 1
+        try:
+            return fn()
+        except Exception as e:
+            fd.fail("edge:exception:" + key, dict(rep, error=repr(e)), "%s raised %r" % (key, e))
+            return None
+
+    # ---- angles 0, +-pi, 2pi, 4pi about coordinate and generic axes
+    for ang in (0.0, -0.0, math.pi, -math.pi, 2 * math.pi, 4 * math.pi, math.pi / 2):
+        for ax in ([0.0, 0.0, 1.0], [1.0, 0.0, 0.0], [0.0, -2.0, 0.0], gvec(rng)):
+            rep = {"angle": ang, "axis": ax}
+            q = guard("Rotation(angle,axis)", rep, lambda: R(angle=ang, axis=ax))
+            if q is None: continue
+            ah = unit(ax)
+            w = gvec(rng); d = sum(x * y for x, y in zip(w, ah)); pv = [x - d * y for x, y in zip(w, ah)]
+            if nrm(pv) < 1e-3 * nrm(w): continue
+            ph = unit(pv); cr = [ah[1] * ph[2] - ah[2] * ph[1], ah[2] * ph[0] - ah[0] * ph[2], ah[0] * ph[1] - ah[1] * ph[0]]
+            want = [math.cos(ang) * ph[i] + math.sin(ang) * cr[i] for i in range(3)]
+            if abs(qn2(ql(q)) - 1) > 1e-14 or vd(app(q, ah), ah) > 1e-14 or vd(app(q, ph), want) > 1e-14:
+                fd.fail("edge:angle-axis", dict(rep, q=ql(q)), "Rotation(angle, axis) at a special angle is not the rotation by that angle about that axis")
+    # ---- zero / non-unit quaternions given by the user: no exception; normalize() of a non-zero one is a rotation
+    for raw in ([0.0, 0.0, 0.0, 0.0], [0.0, 0.0, 0.0, 2.0], [0.0, 0.0, 2.0, 0.0], [3.0, -4.0, 12.0, 0.5], [1e-160, 0.0, 0.0, 1e-160], [1e160, 1e160, 0.0, 0.0]):
+        rep = {"q": raw}
+        q = R(ix=raw[0], iy=raw[1], iz=raw[2], r=raw[3])
+        v = gvec(rng)
+        guard("q*v", rep, lambda: q * v); guard("q.inverse()", rep, lambda: q.inverse()); guard("q*q", rep, lambda: q * q)
+        qn = guard("q.normalize()", rep, lambda: q.normalize())
+        if qn is not None and any(raw) and max(abs(x) for x in raw) < 1e150 and min(abs(x) for x in raw if x) > 1e-150:
+            if abs(qn2(ql(qn)) - 1) > 1e-14 or abs(nrm(app(qn, v)) - nrm(v)) > 1e-13 * nrm(v):
+                fd.fail("edge:normalize", dict(rep, normalized=ql(qn)), "normalize() of a non-zero quaternion is not a unit quaternion preserving lengths")
+    # ---- to_new_axes with parallel / antiparallel / zero newx, default newx for +-z
+    for z, x in (([0.0, 0.0, 2.0], [0.0, 0.0, 5.0]), ([1.0, 1.0, 1.0], [-2.0, -2.0, -2.0]), ([0.0, 1.0, 0.0], [0.0, 0.0, 0.0]), ([0.0, 0.0, 1.0], None),
+                 ([0.0, 0.0, -1.0], None), ([0.0, 0.0, -3.0], None), (gvec(rng), None), ([1.0, 0.0, 0.0], None), ([0.0, 0.0, 1.0], [1.0, 0.0, 0.0])):
+        rep = {"newz": z, "newx": x}
+        q = guard("to_new_axes", rep, (lambda: R.to_new_axes(newz=z, newx=x)) if x is not None else (lambda: R.to_new_axes(newz=z)))
+        if q is None: continue
+        if not fin(ql(q)) or abs(qn2(ql(q)) - 1) > 1e-14 or vd(app(q, unit(z)), [0.0, 0.0, 1.0]) > 1e-13:
+            fd.fail("edge:to_new_axes-degenerate", dict(rep, q=ql(q)), "to_new_axes with a parallel / missing newx does not give a unit rotation taking newz to z")
+    # ---- orbit <-> orbital() at inc = 0, pi and next to them (planar prograde / retrograde orbits)
+    for inc in (0.0, math.pi, 1e-9, math.pi - 1e-9, 3e-8, math.pi - 3e-8, 1e-4, math.pi - 1e-4):
+        for _ in range(3):
+            Om, om = rng.uniform(0, 2 * math.pi), rng.uniform(0, 2 * math.pi)
+            rep = {"Omega": Om, "inc": inc, "omega": om}
+            q = guard("Rotation.orbit", rep, lambda: R.orbit(Omega=Om, inc=inc, omega=om))
+            if q is None: continue
+            ang = guard("orbital()", rep, lambda: q.orbital())
+            if ang is None: continue
+            q2 = R.orbit(Omega=ang[0], inc=ang[1], omega=ang[2])
+            v = gvec(rng)
+            if abs(qn2(ql(q)) - 1) > 1e-14 or vd(app(q, v), app(q2, v)) > 1e-6 * nrm(v) or not (0 <= ang[0] < 2 * math.pi + 1e-12 and 0 <= ang[2] < 2 * math.pi + 1e-12):
+                fd.fail("to_orbital:planar", dict(rep, orbital=ang, q=ql(q)), "orbital() of a (nearly) planar orbit rotation does not describe the same rotation")
+    # ---- the ends of the double range: directions are well defined, so are the rotations
+    for mag in (1e200, 1e-200, 1e-310, 1e154, 1e-154, 3e307):
+        a = [x * mag for x in unit(gvec(rng))]; b = [x * mag for x in unit(gvec(rng))]
+        rep = {"magnitude": mag, "from": a, "to": b}
+        q = guard("from_to", rep, lambda: R.from_to(a, b))
+        if q is not None:
+            ua, ub = unit([x / mag for x in a]), unit([x / mag for x in b])
+            if not fin(ql(q)) or abs(qn2(ql(q)) - 1) > 1e-14 or vd(app(q, ua), ub) > (1e-13 if mag != 1e-310 else 1e-2):
+                fd.fail("normalize:range", dict(rep, q=ql(q)), "from_to of vectors of magnitude %g (squared length over/underflows) is not the rotation between their directions" % mag)
+        q = guard("Rotation(angle,axis)", rep, lambda: R(angle=1.0, axis=a))
+        if q is not None and (not fin(ql(q)) or abs(qn2(ql(q)) - 1) > 1e-14):
+            fd.fail("normalize:range", dict(rep, q=ql(q), constructor="angle_axis"), "Rotation(angle, axis) with an axis of magnitude %g is not a unit quaternion" % mag)
+    qu = R.from_to(gvec(rng), gvec(rng))
+    for mag in (1e300, 1e-300, 1e-310, 1e307):
+        v = [x * mag for x in unit(gvec(rng))]
+        w = guard("q*v", {"v": v}, lambda: app(qu, v))
+        if w is not None and (not fin(w) or abs(nrm([x / mag for x in w]) - nrm([x / mag for x in v])) > (1e-13 if mag != 1e-310 else 1e-3) * nrm([x / mag for x in v])):
+            fd.fail("edge:rotate-extreme", {"q": ql(qu), "v": v, "rotated": w}, "rotating a vector of magnitude %g changes its length / overflows" % mag)
+    for bad in (float("nan"), float("inf")):      # accepted doubles: no exception, no hang
+        guard("nan/inf", {"x": bad}, lambda: (R(angle=bad, axis=[0.0, 0.0, 1.0]), R.from_to([bad, 0.0, 0.0], [0.0, 1.0, 0.0]), R.orbit(Omega=bad), qu * [bad, 0.0, 0.0],
+                                               R(ix=bad, iy=0.0, iz=0.0, r=1.0).orbital()))
+    # ---- N = 0 and N = 1 simulations through every whole-simulation operation
+    for nreal in (0, 1):
+        sim = rebound.Simulation()
+        if nreal: sim.add(m=rng.choice([0.0, 1.0]), x=1.0, vy=2.0)
+        rep = {"N": nreal}
+        b4 = [(p.m, p.x, p.y, p.z, p.vx, p.vy, p.vz) for p in sim.particles]
+        guard("N<=1 operations", rep, lambda: (sim.move_to_com(), sim.move_to_hel(), sim.rotate(R()), (sim * 2.0).N, (sim + sim).N, (sim - sim).N, sim.energy(),
+                                               sim.angular_momentum(), sim.com().m, sim.copy().N))
+        s2 = sim.copy()
+        guard("N<=1 frames", rep, lambda: (s2.move_to_com(), s2.move_to_hel()))
+        if nreal and (s2.particles[0].x != 0.0 or s2.particles[0].vy != 0.0) and sim.particles[0].m > 0:
+            fd.fail("edge:single-particle-frame", rep, "a single massive particle is not at rest at the origin after move_to_com / move_to_hel")
+        va = guard("N<=1 add_variation", rep, lambda: sim.add_variation())
+        guard("N<=1 frames with variation", rep, lambda: (sim.move_to_com(), sim.move_to_hel(), sim.rotate(qu)))
+    # ---- test-particle variational sets (first and second order): untouched by both frame changes, rotated like vectors
+    t = rebound.Simulation(); t.add(m=1.0, x=0.3, vy=0.1); t.add(m=0.0, x=1.0, vy=1.0); t.add(m=1e-3, x=-2.0, vy=-0.7)
+    f1 = guard("add_variation(testparticle)", {}, lambda: t.add_variation(testparticle=1))
+    if f1 is not None:
+        guard("add_variation(order=2,testparticle)", {}, lambda: t.add_variation(order=2, first_order=f1, testparticle=1))
+        for i in range(3, t.N):
+            for c in COMPS: setattr(t.particles[i], c, rng.gauss(0, 1))
+        b4 = [[getattr(t.particles[i], c) for c in COMPS] for i in range(3, t.N)]
+        t.move_to_com(); t.move_to_hel()
+        if [[getattr(t.particles[i], c) for c in COMPS] for i in range(3, t.N)] != b4:
+            fd.fail("edge:testparticle-variation-frames", {"before": b4}, "a frame change moved a test-particle variational particle")
+        t.rotate(qu)
+        for k, i in enumerate(range(3, t.N)):
+            for o in (0, 3):
+                ex = xrot(ql(qu), b4[k][o:o + 3]); got = [getattr(t.particles[i], c) for c in COMPS[o:o + 3]]
+                if max(abs(F(g) - e) for g, e in zip(got, ex)) > 64 * EPS * nrm(b4[k][o:o + 3]):
+                    fd.fail("edge:testparticle-variation-rotate", {"before": b4, "q": ql(qu)}, "sim.rotate does not rotate a test-particle variational particle")
+    # ---- error paths, then the same object keeps being used
+    s3 = rebound.Simulation()
+    def expect_raise(key, fn, rep=None):
+        ctx.evaluations += 1
+        try:
+            fn()
+        except Exception:
+            return True
+        fd.fail("edge:no-error:" + key, rep or {}, "%s was accepted" % key)
+        return False
+    for badu in (("foo", "yr", "msun"), ("au", "yr"), ("au", "km", "msun"), ("au", "yr", "msun", "kg"), (1, 2, 3), ()):
+        expect_raise("units=%r" % (badu,), lambda: setattr(s3, "units", badu))
+        if s3.G != 1.0 or any(v is not None for v in s3.units.values()):
+            fd.fail("edge:units-after-error", {"units_given": badu, "units_now": s3.units, "G": s3.G}, "a rejected sim.units assignment changed the simulation")
+    expect_raise("convert_particle_units before units are set", lambda: s3.convert_particle_units("au", "yr", "msun"))
+    s3.units = ("AU", "Yr", "Msun"); G0 = s3.G
+    s3.add(m=1.0, x=1.0, vx=0.5)
+    expect_raise("units after particles were added", lambda: setattr(s3, "units", ("m", "s", "kg")))
+    expect_raise("convert_particle_units to an unknown unit", lambda: s3.convert_particle_units("au", "yr", "foo"))
+    pst = (s3.particles[0].m, s3.particles[0].x, s3.particles[0].vx)
+    if s3.G != G0 or s3.units != {"length": "au", "time": "yr", "mass": "msun"} or pst != (1.0, 1.0, 0.5):
+        fd.fail("edge:units-after-error", {"units_now": s3.units, "G": s3.G, "particle": pst}, "a rejected unit operation changed the simulation")
+    s3.convert_particle_units("km", "s", "kg"); s3.convert_particle_units("au", "yr", "msun")
+    if relerr(s3.particles[0].x, 1.0) > 64 * EPS or relerr(s3.G, G0) > 8 * EPS:
+        fd.fail("edge:units-after-error", {"x": s3.particles[0].x, "G": s3.G}, "unit conversion after a rejected request does not round-trip")
+    a = rebound.Simulation(); a.add(m=1.0, x=1.0); b = rebound.Simulation(); b.add(m=1.0); b.add(m=1.0)
+    for nm, fn in (("+=", lambda: a.__iadd__(b)), ("-=", lambda: a.__isub__(b)), ("/0", lambda: a / 0.0)):
+        expect_raise("Simulation %s with mismatching N / zero" % nm, fn)
+    if a.N != 1 or a.particles[0].x != 1.0 or (a + a).particles[0].x != 2.0:
+        fd.fail("edge:arithmetic-after-error", {}, "a rejected simulation arithmetic operation changed its operand / breaks later use")
+
+
 def search_slerp(ctx, fd, clib, Rot):
     """reb_rotation_slerp (C API only): end points, unit norm and constant angular speed along the great arc between unit quaternions"""
     rng = ctx.rng
@@ -999,6 +1145,8 @@ def search_slerp(ctx, fd, clib, Rot):
         th = math.acos(c)
         sth = math.sqrt(1.0 - c * c)
         t = rng.choice([0.0, 1.0, rng.random(), rng.random()])
+        for tb in (float('nan'), -1.0, 2.0, 1e300):      # accepted doubles outside [0,1]: must return (no crash / hang)
+            clib.reb_rotation_slerp(Rot(*q1), Rot(*q2), tb)
         r = clib.reb_rotation_slerp(Rot(*q1), Rot(*q2), t)
         rv = [r.ix, r.iy, r.iz, r.r]
         if sth < 1.05e-4:
@@ -1025,7 +1173,7 @@ def search(ctx, rebound, clib, Rot, V3):
     fd = Finder(ctx)
     for name, fn in (("units", search_units), ("rotations", search_rot), ("frames", search_frames),
                      ("whole-simulation rotation with variations", search_whole_sim_var),
-                     ("reused objects / aliasing", search_reuse), ("units or scale change then integrate", search_history),
+                     ("edges of the domain", search_edges), ("reused objects / aliasing", search_reuse), ("units or scale change then integrate", search_history),
                      ("slerp", lambda c, f, r: search_slerp(c, f, clib, Rot))):
         try:
             fn(ctx, fd, rebound)
